@@ -29,6 +29,18 @@ var vPasswords = []string{"a", "password", "password1", "Passw0rd", "qwerty123",
 	"Tr0ub4dor&3", "correct horse battery staple", "Correct-Horse-Battery-9", "zxcvbn", "1234567890", "aaaaaaaaaaaa", "2019-05-05",
 	"ñandú-über-straße", "x", "Quiet-Anchor-Velvet-77", "qjzx", "P@ssw0rd!", "iloveyou2", "monkey", "G7$kq!v9Zp#2mL", "abcdefghijklmnop"}
 
+// passwords whose verdict changes when the string is cut, trimmed or case-folded before it is
+// scored: a weak repeated body with a dictionary word straddling byte N (the head alone looks
+// strong), a weak run of N bytes followed by a strong tail (the head alone is weak), and
+// white-space / case variants of weak and strong passwords.
+func init() {
+	for _, n := range []int{8, 16, 20, 32, 50, 64, 72, 100, 128} {
+		body := strings.Repeat("password", n/8+1)[:max(n-2, 0)]
+		vPasswords = append(vPasswords, body+"unrecognizable", strings.Repeat("a", n)+"Xk9#mQ2$vL7&pR4")
+	}
+	vPasswords = append(vPasswords, "  password  ", "PASSWORD", "password\n", " G7$kq!v9Zp#2mL", "G7$KQ!V9ZP#2ML", "\tletmein", "monkey\x00G7$kq!v9Zp#2mL")
+}
+
 func suiteV17(c *vctx) {
 	r := c.r
 	// (1) the condition parser and the constructor
